@@ -1,0 +1,15 @@
+// +build verif
+
+// Accessor used by the external verification harness (/verif, property C15).
+// Compiled only with -tags verif; nothing here is called by the node.
+
+package vm
+
+// VerifC15ResetIntPools forgets every recycled integer pool, so that the next
+// interpreter run starts from an empty pool (the harness uses it to re-run a
+// diverging program in isolation from earlier executions).
+func VerifC15ResetIntPools() {
+	poolOfIntPools.lock.Lock()
+	poolOfIntPools.pools = poolOfIntPools.pools[:0]
+	poolOfIntPools.lock.Unlock()
+}
